@@ -191,7 +191,11 @@ Definition sk_enc (k : skey) (m r : Z) : Z :=
   sk_cmul k (representative (sk_N k) m) (sk_noise k r).
 
 (* OddPrimeSquareFactors.ModExp: exponent reduced modulo phi(p^2) when the base is
-   coprime to p, full exponent otherwise *)
+   coprime to p, full exponent otherwise.  (As the code stands, `ep.Select(c, exp, &ep)`
+   aliases its destination with its second alternative -- numct.Nat.Select first copies
+   x0 = exp into ep -- so the full exponent is what is actually used in both cases; the
+   reduced exponent written in the source is modelled here, and sk_modexp2_eq proves both
+   give the value of the plain exponentiation, so either behaviour satisfies the theorems.) *)
 Definition sk_modexp2 (k : skey) (b e : Z) : Z :=
   let p := sk_p k in let q := sk_q k in
   let ep := if Z.gcd b p =? 1 then e mod (p * (p - 1)) else e in
